@@ -1,7 +1,10 @@
 import Scion.Model.Addr
 import Scion.Proofs.AddrDigits
 import Scion.Proofs.AddrParse
+import Scion.Proofs.AddrRoundTrip
+import Scion.Proofs.AddrSplitMulti
 import Scion.Gen.AddrText
+import Scion.Gen.AddrFmt
 /-!
 # C46 — ISD-AS and address text formats round-trip
 
@@ -41,43 +44,12 @@ def SepArgOK : Option Str → Prop
 theorem parse_format_isd (isd : Nat) (h : isd < 2 ^ 16) : parseISD (fmtISD isd) = .ok isd :=
   parseUint_toDigits 10 16 isd (by omega) (by omega) h
 
-private theorem notin_toDigits (c : Char) (hc : ∀ d, d < 16 → c ≠ digitChar d) (b : Nat) (hb : 2 ≤ b)
-    (hb' : b ≤ 16) (n : Nat) : c ∉ toDigits b n := by
-  intro hm
-  obtain ⟨d, hd, rfl⟩ := mem_toDigits b hb n c hm
-  exact hc d (by omega) rfl
-
 /-- every AS number prints (decimal up to 2^32-1, three hex groups above) to text that parses
     back to it, for every single-character separator that is not a lower-case hex digit -/
 theorem parse_format_as_sep (c : Char) (hc : ∀ d, d < 16 → c ≠ digitChar d) (as : Nat)
-    (h : as < 2 ^ 48) : parseAS [c] (fmtAS [c] as) = .ok as := by
-  have h1 : ¬ maxAS < as := by simp only [maxAS]; omega
-  unfold fmtAS
-  simp only [h1, if_false]
-  split
-  · rename_i hle
-    have hlt : as < 2 ^ 32 := by simp only [maxBGPAS] at hle; omega
-    unfold parseAS
-    rw [split_single_notin c _ (notin_toDigits c hc 10 (by omega) (by omega) as)]
-    exact parseUint_toDigits 10 32 as (by omega) (by omega) hlt
-  · have e : toDigits 16 (as / 2 ^ 32 % 2 ^ 16) ++ [c] ++ toDigits 16 (as / 2 ^ 16 % 2 ^ 16) ++ [c] ++
-        toDigits 16 (as % 2 ^ 16) =
-        toDigits 16 (as / 2 ^ 32 % 2 ^ 16) ++ c :: (toDigits 16 (as / 2 ^ 16 % 2 ^ 16) ++ c ::
-        toDigits 16 (as % 2 ^ 16)) := by simp
-    unfold parseAS
-    rw [e, split_single_append c _ _ (notin_toDigits c hc 16 (by omega) (by omega) _),
-      split_single_append c _ _ (notin_toDigits c hc 16 (by omega) (by omega) _),
-      split_single_notin c _ (notin_toDigits c hc 16 (by omega) (by omega) _)]
-    simp only [asPartBase, asPartBits]
-    rw [parseUint_toDigits 16 16 _ (by omega) (by omega) (Nat.mod_lt _ (by omega)),
-      parseUint_toDigits 16 16 _ (by omega) (by omega) (Nat.mod_lt _ (by omega)),
-      parseUint_toDigits 16 16 _ (by omega) (by omega) (Nat.mod_lt _ (by omega))]
-    have hv : (as / 2 ^ 32 % 2 ^ 16 * 2 ^ 16 + as / 2 ^ 16 % 2 ^ 16) * 2 ^ 16 + as % 2 ^ 16 = as := by
-      omega
-    simp only [hv, h1, if_false]
+    (h : as < 2 ^ 48) : parseAS [c] (fmtAS [c] as) = .ok as :=
+  parseAS_fmtAS c hc as h
 
-private theorem colon_ne_digit : ∀ d, d < 16 → ':' ≠ digitChar d := by decide
-private theorem dash_ne_digit : ∀ d, d < 16 → '-' ≠ digitChar d := by decide
 
 /-- `ParseAS(AS.String())` -/
 theorem parse_format_as (as : Nat) (h : as < 2 ^ 48) : parseAS [':'] (fmtAS [':'] as) = .ok as :=
@@ -377,6 +349,17 @@ theorem parseIA_ok_iff (s : Str) (v : Nat) :
     have e : as % 2 ^ 48 = as := Nat.mod_eq_of_lt this
     simp only [hi, has, iaFrom, e]
 
+/-- normalising an AS text (`ParseAS` then `String`, as the path-policy listener does) keeps the
+    value: the normal form parses to the same AS -/
+theorem format_parse_canonical (s : Str) (v : Nat) (h : parseAS [':'] s = .ok v) :
+    parseAS [':'] (fmtAS [':'] v) = .ok v :=
+  parse_format_as v (parseAS_lt _ _ _ h)
+
+/-- two texts denote the same AS iff their normal forms are equal -/
+theorem normal_form_eq_iff (s₁ s₂ : Str) (v₁ v₂ : Nat) (h₁ : parseAS [':'] s₁ = .ok v₁)
+    (h₂ : parseAS [':'] s₂ = .ok v₂) : fmtAS [':'] v₁ = fmtAS [':'] v₂ ↔ v₁ = v₂ :=
+  ⟨fmtAS_inj v₁ v₂ (parseAS_lt _ _ _ h₁) (parseAS_lt _ _ _ h₂), fun e => by rw [e]⟩
+
 /-! ## Host addresses and full SCION addresses -/
 
 /-- what is assumed of Go's `net/netip` text form (tied by T1 through the engine's oracle) -/
@@ -482,26 +465,63 @@ theorem parse_format_addrPort {IP : Type} (k : IPCodec IP) (hk : IPCodecOK k) (i
   rw [e, hsplit]
   simp [parse_format_addr k hk ia hia h hh, parseUint_toDigits 10 16 port (by omega) (by omega) hp]
 
-/-! ## Separators of more than one character (stated; single-character case proved, the rest tied by T1) -/
+/-! ## Separators of more than one character -/
 
-/-- separator strings for which the round trip is expected: no '-' and at least one character
-    the formatter never prints for a digit -/
+/-- separator strings for which the round trip holds: no '-' and at least one character the
+    formatter never prints for a digit (a separator made of digit characters only, or containing
+    '-', cannot work: `ff00` + `0` + `110` with separator "0" is ambiguous) -/
 def SepStrOK (sep : Str) : Prop := '-' ∉ sep ∧ ∃ c ∈ sep, ∀ d, d < 16 → c ≠ digitChar d
 
-/-- full statement for arbitrary separator strings -/
-def parse_format_formatted_ia_anysep : Prop :=
-  ∀ (p : Bool) (sep : Str), SepStrOK sep → ∀ ia, ia < 2 ^ 64 →
-    parseFormattedIA ⟨p, sep⟩ (formatIA ⟨p, sep⟩ ia) = .ok ia
+theorem parse_format_as_sepstr (sep : Str) (hX : ∃ c ∈ sep, ∀ d, d < 16 → c ≠ digitChar d)
+    (as : Nat) (h : as < 2 ^ 48) : parseAS sep (fmtAS sep as) = .ok as := by
+  obtain ⟨c, hc, hn⟩ := hX
+  exact parseAS_fmtAS_str sep ⟨c, hc, fun ⟨d, hd, e⟩ => hn d hd e⟩ as h
 
-/-- proved part: separators of length one.  Missing: `strings.Split` with a longer separator
-    (needs the argument that a separator containing a non-digit cannot start inside a digit
-    group); those separators are compared model-vs-implementation by the engine. -/
-theorem parse_format_formatted_ia_anysep_partial (p : Bool) (c : Char) (h : SepStrOK [c]) (ia : Nat)
-    (hia : ia < 2 ^ 64) : parseFormattedIA ⟨p, [c]⟩ (formatIA ⟨p, [c]⟩ ia) = .ok ia := by
-  obtain ⟨h1, c', hc', h2⟩ := h
-  simp only [List.mem_singleton] at h1 hc'
-  subst hc'
-  exact parse_format_formatted_ia_char p c' ⟨fun e => h1 e.symm, h2⟩ ia hia
+/-- **any custom separator**: `ParseFormattedIA(FormatIA(ia, opts), opts) = ia` for every
+    separator string of any length that contains no '-' and at least one non-digit character
+    (the separator cannot start inside a digit group, so `strings.Split` cuts where the
+    formatter joined) -/
+theorem parse_format_formatted_ia_anysep (p : Bool) (sep : Str) (hs : SepStrOK sep) (ia : Nat)
+    (h : ia < 2 ^ 64) : parseFormattedIA ⟨p, sep⟩ (formatIA ⟨p, sep⟩ ia) = .ok ia := by
+  have hisd : iaISD ia < 2 ^ 16 := by simp only [iaISD]; omega
+  have has : iaAS ia < 2 ^ 48 := by simp only [iaAS]; omega
+  have hdig := notin_toDigits '-' dash_ne_digit 10 (by omega) (by omega) (iaISD ia)
+  have hasn := dash_notin_fmtAS sep hs.1 _ has
+  have e1 := parse_format_formatted_isd ⟨p, sep⟩ _ hisd
+  have e2 : parseFormattedAS ⟨p, sep⟩ (formatAS ⟨p, sep⟩ (iaAS ia)) = .ok (iaAS ia) := by
+    unfold parseFormattedAS formatAS
+    cases p <;> simp [trimPrefix_as, parse_format_as_sepstr sep hs.2 _ has]
+  unfold parseFormattedIA formatIA
+  cases p
+  · have e : toDigits 10 (iaISD ia) ++ ['-'] ++ fmtAS sep (iaAS ia) =
+        toDigits 10 (iaISD ia) ++ '-' :: fmtAS sep (iaAS ia) := by simp
+    simp only [Bool.false_eq_true, if_false]
+    rw [e, split_single_append '-' _ _ hdig, split_single_notin '-' _ hasn]
+    simp only [formatISD, formatAS, Bool.false_eq_true, if_false] at e1 e2
+    simp only [e1, e2, iaFrom_parts]
+  · have e : isdPrefix ++ toDigits 10 (iaISD ia) ++ ['-'] ++ asPrefix ++ fmtAS sep (iaAS ia) =
+        (isdPrefix ++ toDigits 10 (iaISD ia)) ++ '-' :: (asPrefix ++ fmtAS sep (iaAS ia)) := by simp
+    have hA : '-' ∉ isdPrefix ++ toDigits 10 (iaISD ia) := by
+      simp only [List.mem_append, not_or]; exact ⟨by decide, hdig⟩
+    have hB : '-' ∉ asPrefix ++ fmtAS sep (iaAS ia) := by
+      simp only [List.mem_append, not_or]; exact ⟨by decide, hasn⟩
+    simp only [if_true]
+    rw [e, split_single_append '-' _ _ hA, split_single_notin '-' _ hB]
+    simp only [formatISD, formatAS, if_true] at e1 e2
+    simp only [e1, e2, iaFrom_parts]
+
+/-- … in particular through the public options: `WithSeparator(sep)` for any such string -/
+theorem parse_format_formatted_ia_withSeparator (p : Bool) (sep : Str) (hs : SepStrOK sep)
+    (ia : Nat) (h : ia < 2 ^ 64) :
+    parseFormattedIA (mkOpts p (some sep)) (formatIA (mkOpts p (some sep)) ia) = .ok ia := by
+  have hne : sep ≠ [] := by
+    intro e; subst e; obtain ⟨_, c, hc, _⟩ := hs; simp at hc
+  have : mkOpts p (some sep) = ⟨p, sep⟩ := by
+    cases sep with
+    | nil => exact absurd rfl hne
+    | cons x xs => cases p <;> rfl
+  rw [this]
+  exact parse_format_formatted_ia_anysep p sep hs ia h
 
 /-! ## Non-vacuity -/
 
@@ -518,6 +538,7 @@ example : IPCodecOK toyCodec where
   noBracket := by intro a; cases a; decide
 example : fmtAddrPort toyCodec 0x0001ff0000000110 (.svc (svcCS + svcMcast)) 80 =
     "[1-ff00:0:110,CS_M]:80".toList := by decide
+example : SepStrOK "_x_".toList := ⟨by decide, '_', by decide, by decide⟩
 example : SepOK '_' := ⟨by decide, by decide⟩
 example : OutsideHexDash '_' := ⟨by decide, by decide⟩
 example : SepArgOK (some ['_']) := ⟨by decide, by decide⟩
@@ -545,4 +566,15 @@ theorem gen_consts :
     asPartBits = Scion.Addr.asPartBits ∧ asPartBase = Scion.Addr.asPartBase ∧ asParts = 3 ∧
     SvcDS = Scion.Addr.svcDS ∧ SvcCS = Scion.Addr.svcCS ∧ SvcWildcard = Scion.Addr.svcWildcard ∧
     SvcNone = Scion.Addr.svcNone ∧ SVCMcast = Scion.Addr.svcMcast := by decide
+
+/-- the layouts the formatters print, regenerated from the source (T3): `ISD%d-AS%s` / `%d-%s`,
+    `<SVC:0x%04x>`, `%s,%s`, `[%s]:%d` — the shapes `formatIA`, `fmtIA`, `svcBaseString`, `fmtAddr`,
+    `fmtAddrPort` were written for -/
+theorem gen_formats :
+    Scion.Gen.AddrFmt.FormatIA = ["ISD%d-AS%s|ia.ISD(),as", "%d-%s|ia.ISD(),as"] ∧
+    Scion.Gen.AddrFmt.FormatISD = ["ISD%d|isd"] ∧
+    Scion.Gen.AddrFmt.IA_String = ["%d-%s|ia.ISD(),ia.AS()"] ∧
+    Scion.Gen.AddrFmt.SVC_BaseString = ["<SVC:0x%04x>|uint16(h)"] ∧
+    Scion.Gen.AddrFmt.Addr_String = ["%s,%s|a.IA,a.Host"] ∧
+    Scion.Gen.AddrFmt.FormatAddrPort = ["[%s]:%d|a,port"] := by decide
 end Scion.C46
